@@ -23,6 +23,22 @@ for tc in ET.parse(junit).getroot().iter("testcase"):
         passed.add(f"{tc.get('classname')}::{tc.get('name')}")
 os.unlink(junit)
 missing = sorted(stable - passed)
+# timing-sensitive tests (subprocess executor, timeouts) fail spuriously when the machine is loaded:
+# re-run only the missing ones, alone, before calling them failures
+for _attempt in range(2):
+    if not missing or len(missing) > 60:
+        break
+    fd, junit = tempfile.mkstemp(suffix=".xml"); os.close(fd)
+    files = sorted({m.split("::")[0].replace(".", "/") + ".py" for m in missing})
+    subprocess.run(["/venv/bin/python", "-m", "pytest", "-q", "-p", "no:cacheprovider", "--timeout=900",
+                    f"--junitxml={junit}", *files], cwd=repo, env=env, capture_output=True, text=True)
+    for tc in ET.parse(junit).getroot().iter("testcase"):
+        if not any(c.tag in ("failure", "error", "skipped") for c in tc):
+            passed.add(f"{tc.get('classname')}::{tc.get('name')}")
+    os.unlink(junit)
+    still = sorted(stable - passed)
+    print(f"re-ran {len(files)} file(s) for {len(missing)} missing test(s): still missing {len(still)}")
+    missing = still
 print(f"stable={len(stable)} passed_stable={len(stable & passed)} missing={len(missing)}")
 for m in missing[:40]:
     print("  NOT PASSING:", m)
